@@ -13,4 +13,4 @@ case "$PKG" in
     echo "replace github.com/lucas-clemente/quic-go => $(cd "$(dirname "$0")/.." && pwd)/stubs/quic-go" >> "$W/go.verif.mod"
     EXTRA="-modfile=$W/go.verif.mod -ldflags=-checklinkname=0" ;;
 esac
-cd "$REPO" && go test $EXTRA -overlay "$W/ov.json" -vet=off -count=1 -timeout 60s "$@" "./$PKG/" 2>&1 | grep -v '^WARNING: .*conda'
+cd "$REPO" && go test $EXTRA -overlay "$W/ov.json" -vet=off -count=1 -timeout ${GOVC_TIMEOUT:-60s} "$@" "./$PKG/" 2>&1 | grep -v '^WARNING: .*conda'
